@@ -37,7 +37,8 @@ def judge (l : OpLine) (calls : List Call) (res : Res) (extras : List String) : 
       -- "a call is rejected only for these reasons": also when some argument is outside the domain in which C01
       -- fixes the request bytes (a year above 9999, say), nothing but the listed rules may reject the call
       if calls.isEmpty then
-        (if res == .err then ["C07 none of the rejection rules applies: the call must not be rejected"]
+        (if res == .err then ["C07 none of the rejection rules applies: the call must not be rejected",
+                               "C01 a call that no rule rejects sends exactly one request: none left"]
          else ["C01 exactly one request leaves for a call that is not rejected", "C03 the call reported a result although nothing was sent and no datagram was consumed",
                "C06 exactly one request"]) else
       match requestImage op l.args with
